@@ -249,6 +249,9 @@ def st_sqrt_fp2(L, ex, a, I):
         raise Unsupported('concrete sqrt_fp2')
     X = _cat2(lo, hi)
     r = SQRT2(X)
+    PP = z3.BitVecVal(P381, 384)
+    # curve fact used as an assumption: no point with y = 0 on E2; roots are reduced
+    ex.add(z3.Implies(ISSQ2(X), z3.And(r != 0, z3.ULT(z3.Extract(383, 0, r), PP), z3.ULT(z3.Extract(767, 384, r), PP))))
     wr(ex, a[0], 6, simp(z3.Extract(383, 0, r))); wr(ex, a[0].add(48), 6, simp(z3.Extract(767, 384, r)))
     return ISSQ2(X)
 
@@ -469,8 +472,56 @@ def st_free(L, ex, a, I):
 def st_assert_fail(L, ex, a, I):
     raise GoPanic('c-assert', 'assertion failed in C')
 
+# ---- minimal curve-level stubs (coordinate level, no algebra): membership, affine conversion
+
+ING1 = z3.Function('E1_in_G1', BV(384), BV(384), BV(384), z3.BoolSort())
+ING2 = z3.Function('E2_in_G2', BV(768), BV(768), BV(768), z3.BoolSort())
+AFF1 = z3.Function('E1_affine_xy', BV(384), BV(384), BV(384), BV(768))
+AFF2 = z3.Function('E2_affine_xy', BV(768), BV(768), BV(768), BV(1536))
+
+def rd_big(ex, p, nlimbs):
+    v = rd(ex, p, nlimbs)
+    return tobv(v, 64 * nlimbs)
+
+def b2l(c):
+    if isinstance(c, bool):
+        return int(c)
+    return simp(z3.If(c, z3.BitVecVal(1, 64), z3.BitVecVal(0, 64)))
+
+def st_E1_in_G1(L, ex, a, I):
+    p = a[0]
+    return b2l(ING1(rd_big(ex, p, 6), rd_big(ex, p.add(48), 6), rd_big(ex, p.add(96), 6)))
+
+def st_E2_in_G2(L, ex, a, I):
+    p = a[0]
+    z = rd_big(ex, p.add(192), 12)
+    # the point at infinity (Z = 0) is in G2
+    return b2l(z3.Or(z == 0, ING2(rd_big(ex, p, 12), rd_big(ex, p.add(96), 12), z)))
+
+def st_E1_from_jacobian(L, ex, a, I):
+    out, p = a
+    x, y, z = rd_big(ex, p, 6), rd_big(ex, p.add(48), 6), rd_big(ex, p.add(96), 6)
+    r = AFF1(x, y, z)
+    isinf = z == 0
+    wr(ex, out, 6, simp(z3.If(isinf, x, z3.Extract(383, 0, r))))
+    wr(ex, out.add(48), 6, simp(z3.If(isinf, y, z3.Extract(767, 384, r))))
+    wr(ex, out.add(96), 6, simp(z3.If(isinf, z, z3.BitVecVal(RMONT384, 384))))
+
+def st_E2_from_jacobian(L, ex, a, I):
+    out, p = a
+    x, y, z = rd_big(ex, p, 12), rd_big(ex, p.add(96), 12), rd_big(ex, p.add(192), 12)
+    r = AFF2(x, y, z)
+    isinf = z == 0
+    wr(ex, out, 12, simp(z3.If(isinf, x, z3.Extract(767, 0, r))))
+    wr(ex, out.add(96), 12, simp(z3.If(isinf, y, z3.Extract(1535, 768, r))))
+    wr(ex, out.add(192), 12, simp(z3.If(isinf, z, z3.BitVecVal(RMONT384, 768))))
+
 def install(L):
     S = L.stubs
+    S['@POINTonE1_in_G1'] = st_E1_in_G1
+    S['@POINTonE2_in_G2'] = st_E2_in_G2
+    S['@POINTonE1_from_Jacobian'] = st_E1_from_jacobian
+    S['@POINTonE2_from_Jacobian'] = st_E2_from_jacobian
     for n in ('@add_mod_384',): S[n] = st_add_mod_384
     S['@sub_mod_384'] = st_sub_mod_384
     S['@cneg_mod_384'] = st_cneg_mod_384
